@@ -362,6 +362,13 @@ def c06(tier, seed, replay=None):
     v1.violations += v2.violations
     for k, n in v2.known_hits.items():
         v1.known_hits[k] = v1.known_hits.get(k, 0) + n
+    from checks import algebra
+    lay = algebra.c06_layers(v1, seed)
+    cov["states"] += lay["states"]
+    cov["transitions"] += lay["transitions"]
+    cov["traces_validated_against_impl"] += lay["operator_cases"] + lay["container_cases"]
+    cov["evaluations"] += lay["operator_cases"] + lay["container_cases"]
+    cov["operators_and_containers"] = lay
     rc = v1.finish()
     vlib.write_evidence("C06", tier, seed, "model_checking", cov, ASSUME + agm.ASSUME, time.time() - t0, len(v1.violations))
     return rc
